@@ -1546,7 +1546,12 @@ def run(chk):
         cases.append(f"({cid}%nat, KStrict, {shp_lit}, {rank_lit(rank_s)}, (@nil tape_entry), (ORanks {C.nat_list(strict)} {C.nat_list(realised)}))")
         meta.append(("strict", np.zeros(shape), rank_s, {}, {"cls": "strict", "strict": strict, "realised": realised}, "ok"))
     chk.cov["strict_rank_cases_in_coq"] = len(cases) - n_main
-    failing, n_eval, broken = C.run_case_shards("C09", HEADER, "case", cases, shard=12 if tier == "quick" else 40, timeout=900)
+    # cost-balanced sharding: the symeig / randomized cases (several times dearer than the others) sit at the end of the list, so
+    # the cases are dealt round-robin over at most 16 shards (quick) before being cut into consecutive chunks; the ids travel
+    # inside the literals, so the order of the list is irrelevant for the verdict
+    n_sh = max(1, min(16, -(-len(cases) // 8))) if tier == "quick" else max(1, -(-len(cases) // 40))
+    dealt = [c for k in range(n_sh) for c in cases[k::n_sh]]
+    failing, n_eval, broken = C.run_case_shards("C09", HEADER, "case", dealt, shard=-(-len(cases) // n_sh) if cases else 1, timeout=900)
     chk.checker_cmds.append("coqc (vm_compute) on generated build/cases/C09/*.v: Corr.C09.failing")
     chk.cov["traces_validated_against_impl"] = n_eval
     for b in broken:
@@ -1633,7 +1638,7 @@ def run(chk):
                        "distinct key = (stream, function, shape, rank request, options, value class); non-trivial = more than one entry")
     chk.assumptions = ["exact-arithmetic semantics: floating-point rounding is not modelled (products compared with tolerance 1e-9)",
                        "numpy.linalg.svd is an oracle: its recorded answers are handed to the model; the theorems assume the SVD contract for the answers of a run",
-                       "lower bounds relative to the spectrum of the unfoldings of X are full theorems (Eckart-Young proved, C09_eckart_young); the TT root-sum-square upper bound and the HOOI bound still rest on named hypotheses (working_tails_le_x_tails / not proved)",
+                       "lower bounds relative to the spectrum of the unfoldings of X and the TT-SVD root-sum-square upper bound are full theorems (C09_eckart_young, C09_tt_error_root_sum_square); the HOOI (n_iter_max > 0) bound against the tails of X is only tested",
                        "predicate thresholds: exact = 1e-9 relative; bounds with factor (1 +- 1e-8) and floor 1e-9 ||X||"]
     chk.trusted += ["numpy.linalg.svd (LAPACK gesdd) as SVD oracle for the implementation and, independently, for the predicates' singular values",
                     "NumPy reshape/transpose/moveaxis as modelled in Base/Tensor.v; n-mode product modelled at index level (Model/SvdDecomp.v mode_dot)",
